@@ -151,7 +151,11 @@ def firstDup : List String → List String → Option String
   | _, [] => none
   | seen, x :: xs => if seen.contains x then some x else firstDup (x :: seen) xs
 
-def dupOutput (entries : List String) : Option String := firstDup [] (entries.flatMap entryOuts)
+/-- the outputs a statement names, as ninja compares them: canonical paths (`objects/./x.o` and `objects/x.o` are one output; the code
+    before the repair compared the texts, found by looking at `srcdir: .`) -/
+def entryCanonOuts (e : String) : List String := (entryOuts e).map canonPath
+
+def dupOutput (entries : List String) : Option String := firstDup [] (entries.flatMap entryCanonOuts)
 
 /-- `Generator::execute` after configuring: the run fails when two statements name one output -/
 def generateChecked (ev : EvalExpr) (h : String → Nat) (st : Settings) (b : Bag) (a : Args) : Except GErr GenOutcome :=
